@@ -603,6 +603,11 @@ def san_classify(rep, item):
     configuration that was running (from the worker's breadcrumb)."""
     mk = item.get('mark') if isinstance(item, dict) else None
     if not mk:
+        # a report without a breadcrumb (it surfaced while the worker was
+        # going down): StratifiedSFCNNPS is listed for any input, so its own
+        # frames identify the finding; everything else stays a new violation
+        if 'StratifiedSFCNNPS' in rep.get('key', ''):
+            return 'stratified-sfc:unreliable:any-input'
         return None
     fam = family(mk['cls'])
     key = classify(mk['cls'], 'sanitizer', mk.get('facts', {}), None,
